@@ -5,6 +5,7 @@ package main
 
 import (
 	"fmt"
+	"sort"
 	"go/types"
 	"strings"
 
@@ -48,11 +49,12 @@ type World struct {
 	envSteps   int
 	itoaSeen   []*Term
 	autoO2     string
+	marshalledAny map[int]Value
 	lastObs    *Term // tick of this coroutine's previous store transaction
 }
 
 func newWorld(ex *Exec) *World {
-	w := &World{ex: ex, marshalled: map[int]*MapObj{}, encSeen: map[int]bool{}, funcs: map[string]bool{}, entered: map[string]int{},
+	w := &World{ex: ex, marshalledAny: map[int]Value{}, marshalled: map[int]*MapObj{}, encSeen: map[int]bool{}, funcs: map[string]bool{}, entered: map[string]int{},
 		slots: map[string]int{"promises": 3, "callbacks": 3, "schedules": 2, "locks": 2, "tasks": 4}}
 	w.now = ex.tt.BV(0, 64)
 	return w
@@ -348,6 +350,29 @@ func init() {
 			}
 		}
 		return ex.tt.Bool(false)
+	})
+	vx("NamedConsts", func(ex *Exec, fr *Frame, a []Value, s ssa.Instruction) Value {
+		// all package-level constants of a named integer type, read from the current source
+		pkg := ex.P.pkg(ex.str(a[0], "package"))
+		tn := ex.str(a[1], "type name")
+		if pkg == nil {
+			panic(ex.unsupported("package not loaded"))
+		}
+		var names []string
+		for n, m := range pkg.Members {
+			if c, ok := m.(*ssa.NamedConst); ok {
+				if nt, ok := c.Type().(*types.Named); ok && nt.Obj().Name() == tn {
+					names = append(names, n)
+				}
+			}
+		}
+		sort.Strings(names)
+		arr := &ArrayV{}
+		for _, n := range names {
+			c := pkg.Members[n].(*ssa.NamedConst)
+			arr.es = append(arr.es, ex.constVal(c.Value))
+		}
+		return &SliceV{arr: ex.newObj(arr, nil), len: len(arr.es), cap: len(arr.es)}
 	})
 	vx("HasPrefix", func(ex *Exec, fr *Frame, a []Value, s ssa.Instruction) Value {
 		return ex.tt.PrefixOf(a[1].(*Term), a[0].(*Term))
